@@ -10,13 +10,18 @@
 //	reset app <side c|s>            handshake completed, 1-RTT space
 //	reset init                      server Conn before any ClientHello, Initial space
 //	pkt <rel> <tag>                 packet number base+rel carrying PATH_CHALLENGE(tag) (app) / PING (init)
+//	ping <rel>                      packet number base+rel carrying only PING (ack-eliciting, no immediate reply)
 //	ackpkt <rel> <a:b,a:b,…>        packet base+rel carrying an ACK frame; each bound is an offset from the
 //	                                Conn's next packet number (N), `0:` prefix = absolute, `k` = most recent skipped number
 //	wait <ms>                       let synthetic time pass (delayed ACK timer, PTO)
 //	skipsoon <k>                    white-box: make the Conn skip packet number N+k (it normally picks the
 //	                                first skip at a PRNG-chosen 64..255)
 //
-// Observation tokens: p:<pnum> arrival number, q:<lo>-<hi>,… peer ACK ranges, f:1 arrival number is
+// 1-RTT packets are encoded by the harness itself the way a real sender does: the packet number is
+// truncated relative to the largest number the Conn has acknowledged on the wire (e:<bytes>), so the
+// Conn's packet number decoding (its notion of the largest received number) is exercised as well.
+//
+// Observation tokens: p:<pnum> arrival number, c:1 the packet carries a PATH_CHALLENGE (must be answered when fresh), q:<lo>-<hi>,… peer ACK ranges, f:1 arrival number is
 // larger than every earlier one (so it must be processed), s:<space>:<pnum> packet the Conn sent,
 // a:<space>:<lo>-<hi>,… ACK frame the Conn sent, r:<tag> PATH_RESPONSE, x:<code> CONNECTION_CLOSE,
 // n:<space>:<N> all numbers below N were used by the Conn before the script started,
@@ -36,12 +41,41 @@ import (
 )
 
 func TestVerifC25Conn(t *testing.T) {
-	vu.Run(vu.ConfigFromEnv(), c25wGen, c25wExec(t))
+	vu.Run(vu.ConfigFromEnv(), func(r *vu.Rng, i int) []string { return c25wGen(r, i, 10) }, c25wExec(t))
 }
 
-func c25wGen(r *vu.Rng, i int) []string {
+// TestVerifC23Conn: the same rig as a second tie of C23 (packet number decoding at the receiver):
+// most cases contain long runs of non-ack-eliciting packets acknowledged in one delayed ACK
+// followed by packets with 1-byte packet number encodings.
+func TestVerifC23Conn(t *testing.T) {
+	vu.Run(vu.ConfigFromEnv(), func(r *vu.Rng, i int) []string { return c25wGen(r, i, 2) }, c25wExec(t))
+}
+
+// c25wRun appends "an ack-eliciting packet, a long run of ACK-only packets sent back to back, the
+// delayed ACK for all of them, then new packets": afterwards the sender encodes in 1 byte
+// relative to a largest-acked number far above the last ack-eliciting packet.
+func c25wRun(r *vu.Rng, ops []string, next *int64, tag *int) []string {
+	ops = append(ops, fmt.Sprintf("ping %d", *next)) // ack-eliciting, answered only by the delayed ACK
+	*next++
+	for j, m := 0, r.Range(100, 300); j < m; j++ {
+		ops = append(ops, fmt.Sprintf("ackpkt %d -1:0", *next))
+		*next++
+	}
+	ops = append(ops, "wait 26")
+	for j, m := 0, r.Range(1, 4); j < m; j++ {
+		*tag++
+		ops = append(ops, fmt.Sprintf("pkt %d %d", *next, *tag))
+		*next += int64(r.Range(1, 2))
+	}
+	return ops
+}
+
+func c25wGen(r *vu.Rng, i int, runEvery int) []string {
 	var ops []string
 	initKind := r.Chance(1, 4)
+	if runEvery <= 2 {
+		initKind = false
+	}
 	if initKind {
 		ops = append(ops, "reset init")
 	} else if r.Bool() {
@@ -63,7 +97,16 @@ func c25wGen(r *vu.Rng, i int) []string {
 	if !initKind && r.Chance(1, 2) {
 		ops = append(ops, fmt.Sprintf("skipsoon %d", r.Range(1, 6)))
 	}
+	longRun := !initKind && r.Chance(1, runEvery)
+	runAt := r.Intn(n)
+	if longRun && n > 60 {
+		n = r.Range(8, 60)
+		runAt = r.Intn(n)
+	}
 	for k := 0; k < n; k++ {
+		if longRun && k == runAt {
+			ops = c25wRun(r, ops, &next, &tag)
+		}
 		x := r.Intn(100)
 		switch {
 		case x < 55:
@@ -112,6 +155,10 @@ func c25wGen(r *vu.Rng, i int) []string {
 			ops = append(ops, fmt.Sprintf("ackpkt %d %s", next, strings.Join(rs, ",")))
 			hist = append(hist, next)
 			next++
+		case x < 84:
+			ops = append(ops, fmt.Sprintf("ping %d", next))
+			hist = append(hist, next)
+			next += stride
 		case x < 96:
 			ops = append(ops, fmt.Sprintf("wait %d", []int{1, 5, 26, 30, 120}[r.Intn(5)]))
 		default:
@@ -133,6 +180,8 @@ type c25wCase struct {
 	ptype    packetType
 	base     packetNumber
 	maxArr   packetNumber
+	acked    packetNumber // largest of our numbers the Conn acknowledged on the wire
+	encLen   int
 	arrived  map[packetNumber]bool
 	sent     map[packetNumber]bool
 	sentLow  packetNumber
@@ -239,6 +288,9 @@ func (x *c25wCase) drain() {
 					x.o.Stat(fmt.Sprintf("wire:ack-frame-ranges=%d", min(len(f.ranges), 9)))
 					// ---- oracle: an ACK frame on the wire only acknowledges numbers that arrived
 					if sp == x.space {
+						if len(f.ranges) > 0 && f.ranges[len(f.ranges)-1].end-1 > x.acked {
+							x.acked = f.ranges[len(f.ranges)-1].end - 1
+						}
 						for _, r := range f.ranges {
 							for n := r.start; n < r.end && r.end-r.start < 1<<20; n++ {
 								if !x.arrived[n] {
@@ -287,8 +339,57 @@ func (x *c25wCase) write(num packetNumber, frames ...debugFrame) {
 	}
 	if x.ptype == packetTypeInitial {
 		d.paddedSize = 1200
+		tc.write(d)
+		return
 	}
-	tc.write(d)
+	// 1-RTT: encode like a real sender, truncating the packet number relative to the largest
+	// acknowledged one (packets at or below it are old packets: full 4-byte encoding).
+	base := x.acked
+	if num <= base {
+		base = num - 1<<24
+	}
+	x.encLen = packetNumberLength(num, base)
+	x.obs = append(x.obs, fmt.Sprintf("e:%d", x.encLen))
+	var w packetWriter
+	w.reset(1200)
+	w.start1RTTPacket(num, base, dstConnID)
+	for _, f := range frames {
+		f.write(&w)
+	}
+	k := &updatingKeyPair{
+		w: updatingKeys{hdr: tc.wkeyAppData.hdr,
+			pkt: [2]packetKey{tc.wkeyAppData.pkt[tc.sendKeyNumber], tc.wkeyAppData.pkt[tc.sendKeyNumber]}},
+		updateAfter: maxPacketNumber,
+	}
+	if tc.sendKeyPhaseBit {
+		k.phase |= keyPhaseBit
+	}
+	w.finish1RTTPacket(num, base, dstConnID, k)
+	if num >= tc.peerNextPacketNum[appDataSpace] {
+		tc.peerNextPacketNum[appDataSpace] = num + 1
+	}
+	tc.endpoint.write(&datagram{b: append([]byte(nil), w.datagram()...), peerAddr: tc.conn.peerAddr})
+}
+
+// freshOracle (packet number decoding / delivery): a packet numbered above everything sent before,
+// with its number truncated as RFC 9000 17.1 prescribes, is decoded to that number and processed.
+func (x *c25wCase) freshOracle(fresh, challenge bool, num packetNumber) {
+	if !fresh || x.dead {
+		return
+	}
+	c := x.tc.conn
+	if c.lifetime.state != connStateAlive {
+		return
+	}
+	if !c.acks[x.space].seen.contains(num) {
+		x.o.Fail("", fmt.Sprintf("packet %d (number encoded in %d byte(s) relative to largest acknowledged %d) was not received as packet %d: the Conn dropped it (its largest-received is %d)",
+			num, x.encLen, x.acked, num, c.acks[x.space].largestSeen()))
+	} else if challenge && !x.proc[num] {
+		x.o.Fail("", fmt.Sprintf("packet %d was received but its PATH_CHALLENGE was not answered", num))
+	}
+	if x.space == appDataSpace {
+		x.o.Stat(fmt.Sprintf("wire:fresh-enc-%d", x.encLen))
+	}
 }
 
 func (x *c25wCase) step(op string) string {
@@ -323,6 +424,7 @@ func (x *c25wCase) step(op string) string {
 		c := x.tc.conn
 		x.base = x.tc.peerNextPacketNum[x.space]
 		x.maxArr = x.base - 1
+		x.acked = -1
 		x.sentLow = c.loss.spaces[x.space].nextNum
 		for _, k := range c.loss.spaces[x.space].skipped {
 			x.o.Fail("", fmt.Sprintf("rig assumption broken: packet number %d skipped during the handshake", k))
@@ -347,19 +449,25 @@ func (x *c25wCase) step(op string) string {
 		return op + " => dead"
 	}
 	switch {
-	case t[0] == "pkt" && len(t) == 3:
-		rel, tag := vu.Atoi64(t[1]), vu.Atoi64(t[2])
+	case (t[0] == "pkt" && len(t) == 3) || (t[0] == "ping" && len(t) == 2):
+		rel, tag := vu.Atoi64(t[1]), int64(0)
+		if t[0] == "pkt" {
+			tag = vu.Atoi64(t[2])
+		}
 		if rel < 0 || rel > 1<<30 || tag < 0 || tag >= 1<<20 {
 			return bad()
 		}
 		num := x.base + packetNumber(rel)
 		x.obs = append(x.obs, fmt.Sprintf("p:%d", num))
-		if num > x.maxArr {
+		fresh := num > x.maxArr
+		if fresh {
 			x.obs = append(x.obs, "f:1")
 			x.maxArr = num
 		}
 		x.arrived[num] = true
-		if x.space == appDataSpace {
+		challenge := t[0] == "pkt" && x.space == appDataSpace
+		if challenge {
+			x.obs = append(x.obs, "c:1")
 			var data pathChallengeData
 			binary.BigEndian.PutUint64(data[:], uint64(num)<<20|uint64(tag))
 			x.write(num, debugFramePathChallenge{data: data})
@@ -367,6 +475,7 @@ func (x *c25wCase) step(op string) string {
 			x.write(num, debugFramePing{})
 		}
 		x.drain()
+		x.freshOracle(fresh, challenge, num)
 	case t[0] == "ackpkt" && len(t) == 3:
 		rel := vu.Atoi64(t[1])
 		if rel < 0 || rel > 1<<30 {
@@ -427,6 +536,7 @@ func (x *c25wCase) step(op string) string {
 		}
 		x.write(num, debugFrameAck{ranges: rs})
 		x.drain()
+		x.freshOracle(fresh, false, num)
 		if fresh {
 			pv := x.closeObs == fmt.Sprint(uint64(errProtocolViolation))
 			if (unsent >= 0) != pv {
